@@ -25,7 +25,9 @@ def q2f(v):
 def variables_of(sc):
     v0 = {k: sc[k] for k in ("x", "lb", "ub", "type", "ptype", "mag", "fnum", "fden")}
     v1 = dict(v0, type=TYPES[(TYPES.index(sc["type"]) + 1) % 3], ptype="abs", mag=1)
-    v2 = dict(v0, lb=-INF_Q, ub=INF_Q, type="mirror", ptype="abs", mag=4)
+    # the third variable sits a quarter below a LARGE upper bound (131072): values within a relative 1e-5 of a bound are inside
+    v2 = (dict(v0, x=524287, lb=-INF_Q, ub=524288, type="truncate", ptype="abs", mag=4) if (sc["x"] + sc["lb"]) % 2 == 0
+          else dict(v0, lb=-INF_Q, ub=INF_Q, type="mirror", ptype="abs", mag=4))
     return [v0, v1, v2]
 
 
